@@ -107,7 +107,8 @@ class end_showdown:
                 and s.street_return_index == (old.street_index + 1 if sched else old.street_return_index)
                 and s.street_return_count == (old.runout_count - 1 if sched else old.street_return_count))
 
-    at_call = {Q + '_begin_dealing': ['at_next_runouts_scheduled'], Q + '_begin_hand_killing': ['at_next_runouts_scheduled']}
+    at_call = {Q + '_begin_dealing': ['at_next_runouts_scheduled'], Q + '_begin_hand_killing': ['at_next_runouts_scheduled'],
+               Q + '_begin_chips_pushing': ['at_next_runouts_scheduled']}
 
 
 @contract(Q + '_end_bet_collection', 'C14')
